@@ -125,7 +125,9 @@ pub fn check_net(scratch: &Scratch, net: &Net, ni: usize, tier: Tier, st: &mut S
         let app = world.search_app(algo.real(), weights.clone(), rates.clone(), false, Arc::new(NoRestriction {}));
         let query = json!({"origin_vertex": 0, "destination_vertex": n - 1});
         for (fname, fmt) in FORMATS.iter() {
-            for short in [false, true] {
+            // the route and the tree renderings are configured independently: both together, and (with the short table)
+            // each alone, so that an error raised by one rendering cannot hide a silent shortening in the other
+            for (short, do_route, do_tree) in [(false, true, true), (true, true, true), (true, true, false), (true, false, true)] {
                 st.evaluations += 1;
                 st.transitions += 1;
                 st.traces += 1;
@@ -145,7 +147,7 @@ pub fn check_net(scratch: &Scratch, net: &Net, ni: usize, tier: Tier, st: &mut S
                     Ok((r, _)) => r.trees.iter().map(|t| t.values().map(|b| b.edge_traversal.edge_id.0).collect()).collect(),
                     Err(_) => vec![],
                 };
-                let plugin = match TraversalPlugin::from_file(if short { &gshort } else { &gfile }, Some(*fmt), Some(*fmt)) {
+                let plugin = match TraversalPlugin::from_file(if short { &gshort } else { &gfile }, if do_route { Some(*fmt) } else { None }, if do_tree { Some(*fmt) } else { None }) {
                     Ok(p) => p,
                     Err(e) => {
                         if short && m == 1 {
@@ -170,15 +172,15 @@ pub fn check_net(scratch: &Scratch, net: &Net, ni: usize, tier: Tier, st: &mut S
                         continue;
                     }
                 };
-                let comp = format!("{}.{}{}", fname, if ai == 0 { "single_route" } else { "several_routes" }, if short { ".geometry_table_one_row_short" } else { "" });
+                let comp = format!("{}.{}{}{}", fname, if ai == 0 { "single_route" } else { "several_routes" }, if short { ".geometry_table_one_row_short" } else { "" }, match (do_route, do_tree) { (true, false) => ".route_only", (false, true) => ".tree_only", _ => "" });
                 let size = net.size();
-                let case = || json!({"net": net, "format": fname, "algo": algo, "geometry_table_one_row_short": short, "geometries": geoms});
-                let uses_missing = short && (routes.iter().any(|r| r.contains(&(m - 1))) || tree_edges.iter().any(|t| t.contains(&(m - 1))));
+                let case = || json!({"net": net, "format": fname, "algo": algo, "geometry_table_one_row_short": short, "render_route": do_route, "render_tree": do_tree, "geometries": geoms});
+                let uses_missing = short && ((do_route && routes.iter().any(|r| r.contains(&(m - 1)))) || (do_tree && tree_edges.iter().any(|t| t.contains(&(m - 1)))));
                 let needs_geometry = matches!(*fname, "geo_json" | "wkt" | "wkb");
                 if out.get("error").is_some() {
                     if uses_missing && needs_geometry {
                         st.pass("missing_geometry_is_error_response");
-                    } else if routes.iter().all(|r| r.is_empty()) {
+                    } else if !do_route || routes.iter().all(|r| r.is_empty()) {
                         // an empty route (origin = destination) is turned into an error by the plugin; outside this property
                     } else {
                         st.violation(&comp, "renders_without_error", size, || out["error"].to_string(), case);
@@ -195,12 +197,16 @@ pub fn check_net(scratch: &Scratch, net: &Net, ni: usize, tier: Tier, st: &mut S
                     Some(Value::Null) | None => vec![],
                     Some(x) => vec![x.clone()],
                 };
-                if rendered.len() != routes.len() {
+                if !do_route {
+                    if !rendered.is_empty() {
+                        st.violation(&comp, "no_route_rendering_unless_configured", size, || out["route"].to_string(), case);
+                    }
+                } else if rendered.len() != routes.len() {
                     st.violation(&comp, "one_rendering_per_route", size, || format!("{} routes, {} renderings", routes.len(), rendered.len()), case);
                     continue;
                 }
-                let mut all_ok = true;
-                for (ri, (r, ids)) in rendered.iter().zip(routes.iter()).enumerate() {
+                let mut all_ok = do_route;
+                for (ri, (r, ids)) in rendered.iter().zip(routes.iter()).enumerate().filter(|_| do_route) {
                     let path = &r["path"];
                     let want_geom: Vec<(f32, f32)> = ids.iter().flat_map(|e| geoms[*e].clone()).collect();
                     let ok = match *fname {
@@ -259,7 +265,11 @@ pub fn check_net(scratch: &Scratch, net: &Net, ni: usize, tier: Tier, st: &mut S
                     Some(Value::Null) | None => vec![],
                     Some(x) => vec![x.clone()],
                 };
-                if rendered_trees.len() == trees.len() {
+                if !do_tree {
+                    if !rendered_trees.is_empty() {
+                        st.violation(&comp, "no_tree_rendering_unless_configured", size, || out["tree"].to_string(), case);
+                    }
+                } else if rendered_trees.len() == trees.len() {
                     let mut ok = true;
                     for (t, want) in rendered_trees.iter().zip(trees.iter()) {
                         let got = match *fname {
@@ -289,7 +299,9 @@ pub fn check_net(scratch: &Scratch, net: &Net, ni: usize, tier: Tier, st: &mut S
                 } else {
                     st.violation(&comp, "uuids_are_those_of_matched_vertices", size, || format!("{} / {}", out["origin_vertex_uuid"], out["destination_vertex_uuid"]), case);
                 }
-                if out["route_edges"].as_u64() == Some(routes.iter().map(|r| r.len()).sum::<usize>() as u64) && out["tree_size_count"].as_u64() == Some(trees.iter().sum::<usize>() as u64) {
+                if !(do_route && do_tree) {
+                    // the summary plugin is judged with both renderings present
+                } else if out["route_edges"].as_u64() == Some(routes.iter().map(|r| r.len()).sum::<usize>() as u64) && out["tree_size_count"].as_u64() == Some(trees.iter().sum::<usize>() as u64) {
                     st.pass("summary_counters");
                 } else {
                     st.violation(&comp, "summary_counters", size, || format!("route_edges {} tree_size_count {}", out["route_edges"], out["tree_size_count"]), case);
